@@ -27,7 +27,7 @@ Decl(tpl, es, mths) == [tps |-> tpl, es |-> es, ms |-> mths]
 TPar(n, cn) == [n |-> n, c |-> cn]
 P(pid, fam, feat, srcname, decls, target) ==
   [pid |-> pid, fam |-> fam, feat |-> feat, srcname |-> srcname, decls |-> decls, target |-> target,
-   form |-> "lit", guarantee |-> TRUE, idclass |-> "ordinary", ident |-> "", pos |-> "",
+   targets |-> <<target>>, form |-> "lit", guarantee |-> TRUE, idclass |-> "ordinary", ident |-> "", pos |-> "",
    localtypes |-> UNION {UNION {LocalNamesVars(d.ms[i].ps) \cup LocalNamesVars(d.ms[i].rs) : i \in 1..Len(d.ms)}
                          \cup UNION {LocalNames(d.tps[i].c) : i \in 1..Len(d.tps)} : d \in Range(decls)}]
 One(n, d) == (n :> d)
@@ -179,6 +179,22 @@ EmbedQuick == {p \in {EmbedProgOf(S, own) : S \in EmbedSets(2), own \in BOOLEAN}
 EmbedThorough == {p \in {EmbedProgOf(S, own) : S \in EmbedSets(3), own \in BOOLEAN} : WellFormedProg(p)}
 
 (* ------------------------------------------------------------------------ *)
+(* Multi: every interface of a package mocked into ONE output file (one      *)
+(* registry, one template execution ranging over the interfaces).  The order *)
+(* mixes generic / plain / unexported interfaces whose methods share names   *)
+(* (partly with other signatures), so state that leaks from one mock into    *)
+(* the next shows.                                                           *)
+LiDecl == ("li" :> Decl(<< >>, << >>, <<Meth("Foo", <<V("a", Int)>>, <<V("", N("FS", "T"))>>, FALSE)>>))
+MultiOf(p, order, tag) ==
+  [p EXCEPT !.pid = "multi/" \o tag \o "/" \o p.feat, !.fam = "multi", !.targets = order \o <<p.target>>,
+            !.decls = IF tag = "B" THEN p.decls @@ LiDecl ELSE p.decls]
+MultiOrderA == <<"J", "J2", "K3", "LGI", "Q", "R2">>
+MultiOrderB == <<"LGI", "li", "Q", "J">>          \* generic first, then an unexported one, then plain ones
+MultiBase(k) == {p \in {EmbedProgOf(S, own) : S \in EmbedSets(k), own \in BOOLEAN} : WellFormedProg(p)}
+MultiQuick == {MultiOf(p, MultiOrderA, "A") : p \in MultiBase(1)} \cup {MultiOf(p, MultiOrderB, "B") : p \in MultiBase(1)}
+MultiThorough == {MultiOf(p, MultiOrderA, "A") : p \in MultiBase(2)} \cup {MultiOf(p, MultiOrderB, "B") : p \in MultiBase(2)}
+
+(* ------------------------------------------------------------------------ *)
 (* Generic: type parameters x constraints; named instantiations              *)
 StringerLit == Iface(<<Meth("String", << >>, <<V("", Str)>>, FALSE)>>, << >>)
 Constraints == {AnyT, B("comparable"), Int, Union(<<Int, Str>>), StringerLit, N("Sfmt", "Stringer"), N("FC", "Ordered"), N("FX", "C"), N("SRC", "LC")}
@@ -247,8 +263,8 @@ LocalAll == {LocalProg(n) : n \in LocalNamed} \cup {UnnamedProg(ts) : ts \in Unn
 AllPkgIds == ForeignPkgs \cup StdPkgs \cup {"TM"}
 ASSUME PrintT(<<"TABLES", ToJson([pkgnames |-> [p \in AllPkgIds |-> PkgName(p, "")], methodorder |-> MethodOrder])>>)
 
-MCQuick    == ShapeQuick \cup IdentAll \cup CaseClash \cup PkgsQuick \cup EmbedQuick \cup GenericAll \cup MNameAll \cup LocalAll
-MCThorough == ShapeThorough \cup IdentAll \cup CaseClash \cup PkgsThorough \cup EmbedThorough \cup GenericAll \cup MNameAll \cup LocalAll
+MCQuick    == ShapeQuick \cup IdentAll \cup CaseClash \cup PkgsQuick \cup EmbedQuick \cup GenericAll \cup MNameAll \cup LocalAll \cup MultiQuick
+MCThorough == ShapeThorough \cup IdentAll \cup CaseClash \cup PkgsThorough \cup EmbedThorough \cup GenericAll \cup MNameAll \cup LocalAll \cup MultiThorough
 \* small smoke set used while developing
 MCSmoke    == {ShapeProg(t, "d1") : t \in {Int, N("FX", "T"), Chan("recv", N("FY", "T"))}} \cup {IdentProg(x, "p1") : x \in {"io", "mock", "string"}}
 =============================================================================
